@@ -26,8 +26,8 @@ def hlist(headers) -> list[dict]:
     out = []
     for item in list(headers):
         k, v = item[0], item[1]
-        native = type(v) is str and type(k) is str
-        out.append({"n": cps(str(k)), "v": cps(v if isinstance(v, str) else repr(v)), "s": native})
+        native = isinstance(v, str) and type(k) is str
+        out.append({"n": cps(str(k)), "v": cps(str.__str__(v) if isinstance(v, str) else repr(v)), "s": native})
     return out
 
 
@@ -46,9 +46,59 @@ def mkcall(m, **kw) -> dict:
     return c
 
 
+# ---- value kinds: every entry point also gets values that are not (plain) str; the text of a value in a call is
+# always str(value), the documented conversion.  `kind` of a call applies to all its values.
+class StrSub(str):
+    pass
+
+
+class StrObj:
+    def __init__(self, text):
+        self._t = text
+
+    def __str__(self):
+        return self._t
+
+
+class PathObj(StrObj):
+    def __fspath__(self):
+        return self._t
+
+
+VALUE_KINDS = ["str", "strsub", "obj", "exc", "pathlike", "int", "literal"]
+
+
+def val(text: str, kind: str):
+    """an object of the given kind whose str() is `text` (falls back to the plain str when impossible)"""
+    if kind == "strsub":
+        return StrSub(text)
+    if kind == "obj":
+        return StrObj(text)
+    if kind == "exc":
+        e = ValueError(text)
+        return e if str(e) == text else text
+    if kind == "pathlike":
+        return PathObj(text)
+    if kind == "int":
+        try:
+            n = int(text)
+        except ValueError:
+            return text
+        return n if str(n) == text else text
+    if kind == "literal":
+        import ast
+        try:
+            o = ast.literal_eval(text)
+        except Exception:
+            return text
+        return o if not isinstance(o, str) and str(o) == text else text
+    return text
+
+
 def _arg(c):
     """the positional / keyword argument of extend / update / ctor in its `form`"""
-    ps = [(txt(p["n"]), [txt(v) for v in p["vs"]]) for p in c["ps"]]
+    k = c.get("kind", "str")
+    ps = [(txt(p["n"]), [val(txt(v), k) for v in p["vs"]]) for p in c["ps"]]
     form = c["form"]
     if form == "pairs":
         return [(n, vs[0]) for n, vs in ps], {}
@@ -67,15 +117,16 @@ def apply_call(h, c):
 
     m = c["m"]
     n = txt(c["n"])
-    vs = [txt(v) for v in c["vs"]]
+    k = c.get("kind", "str")
+    vs = [txt(v) if m in ("add_kw", "set_kw") else val(txt(v), k) for v in c["vs"]]    # *_kw: the kind goes to the parameter
     if m == "add":
         h.add(n, vs[0])
     elif m == "add_kw":
-        h.add(n, vs[0], **{txt(c["kn"]): txt(c["kv"])})
+        h.add(n, vs[0], **{txt(c["kn"]): val(txt(c["kv"]), k)})
     elif m == "set":
         h.set(n, vs[0])
     elif m == "set_kw":
-        h.set(n, vs[0], **{txt(c["kn"]): txt(c["kv"])})
+        h.set(n, vs[0], **{txt(c["kn"]): val(txt(c["kv"]), k)})
     elif m == "setitem":
         h[n] = vs[0]
     elif m == "setdefault":
@@ -87,7 +138,7 @@ def apply_call(h, c):
     elif m == "setitem_int":
         h[c["i"]] = (n, vs[0])
     elif m == "setitem_slice":
-        h[c["i"]:c["j"]] = [(txt(p["n"]), txt(p["vs"][0])) for p in c["ps"]]
+        h[c["i"]:c["j"]] = [(txt(p["n"]), val(txt(p["vs"][0]), k)) for p in c["ps"]]
     elif m == "extend":
         a, kw = _arg(c)
         h.extend(a, **kw) if a is not None else h.extend(**kw)
@@ -290,8 +341,15 @@ CLEAN = ["a", "b c", "", "é", "v=1; w", "€\U0001f600", "a\tb", "a\x0bb\x0c", 
 DIRTY = ["a\nb", "\r", "a\r\nX: y", "\n", "é\r", "x" * 30 + "\n"]
 
 
+LITERALS = [b"a\r\nb", ("a\r\nX: y",), ["a", "\n"], 3.5, 7, -1, None, True, b"", ("x", 1), {"a": "\r"}]
+
+
 def rand_value(rng, p_dirty=0.3):
     return rng.choice(DIRTY) if rng.random() < p_dirty else rng.choice(CLEAN)
+
+
+def rand_kind(rng):
+    return "str" if rng.random() < 0.4 else rng.choice(VALUE_KINDS[1:])
 
 
 def rand_call(rng, nlen):
@@ -299,38 +357,47 @@ def rand_call(rng, nlen):
                     "setitem_int", "setitem_slice", "extend", "update", "update", "extend", "remove", "clear"])
     n = cps(rng.choice(NAMES))
 
+    kind = rand_kind(rng)
+
+    def one():
+        if kind == "literal":
+            return str(rng.choice(LITERALS))
+        if kind == "int" and rng.random() < 0.7:
+            return str(rng.choice([0, 7, -3, 12345678901234567890]))
+        return rand_value(rng)
+
     def vals(k):
-        return [cps(rand_value(rng)) for _ in range(k)]
+        return [cps(one()) for _ in range(k)]
 
     def pairs(k, distinct=False, lists=False):
         names = rng.sample(NAMES, min(k, len(NAMES))) if distinct else [rng.choice(NAMES) for _ in range(k)]
         return [{"n": cps(nm), "vs": vals(rng.randint(0, 3) if lists else 1)} for nm in names]
 
     if m in ("add", "set", "setitem", "setdefault"):
-        return mkcall(m, n=n, vs=vals(1))
+        return _k(kind, mkcall(m, n=n, vs=vals(1))
     if m in ("add_kw", "set_kw"):
-        return mkcall(m, n=n, vs=[cps(rng.choice(["attachment", "a", "é"]))], kn=cps(rng.choice(["filename", "p", "x_y"])),
+        return _k(kind, mkcall(m, n=n, vs=[cps(rng.choice(["attachment", "a", "é"]))], kn=cps(rng.choice(["filename", "p", "x_y"])),
                       kv=cps(rand_value(rng)))
     if m in ("setlist", "setlistdefault"):
-        return mkcall(m, n=n, vs=vals(rng.randint(0, 3)))
+        return _k(kind, mkcall(m, n=n, vs=vals(rng.randint(0, 3)))
     if m == "setitem_int":
         if nlen == 0:
-            return mkcall("add", n=n, vs=vals(1))
-        return mkcall(m, n=n, vs=vals(1), i=rng.randrange(nlen))
+            return _k(kind, mkcall("add", n=n, vs=vals(1))
+        return _k(kind, mkcall(m, n=n, vs=vals(1), i=rng.randrange(nlen))
     if m == "setitem_slice":
         i = rng.randint(0, nlen)
-        return mkcall(m, i=i, j=rng.randint(i, nlen), ps=pairs(rng.randint(0, 3)))
+        return _k(kind, mkcall(m, i=i, j=rng.randint(i, nlen), ps=pairs(rng.randint(0, 3)))
     if m in ("extend", "update"):
         form = rng.choice(["pairs", "dict", "dictlist"] + (["kwargs"] if m == "update" else []))
         if form == "pairs":
-            return mkcall(m, ps=pairs(rng.randint(0, 3)), form=form)
+            return _k(kind, mkcall(m, ps=pairs(rng.randint(0, 3)), form=form)
         if form == "kwargs":
             names = rng.sample(["X", "x", "Y"], rng.randint(0, 3))
-            return mkcall(m, ps=[{"n": cps(nm), "vs": vals(rng.randint(0, 3))} for nm in names], form=form)
-        return mkcall(m, ps=pairs(rng.randint(0, 3), distinct=True, lists=(form == "dictlist")), form=form)
+            return _k(kind, mkcall(m, ps=[{"n": cps(nm), "vs": vals(rng.randint(0, 3))} for nm in names], form=form)
+        return _k(kind, mkcall(m, ps=pairs(rng.randint(0, 3), distinct=True, lists=(form == "dictlist")), form=form)
     if m == "remove":
-        return mkcall(m, n=n)
-    return mkcall("clear")
+        return _k(kind, mkcall(m, n=n)
+    return _k(kind, mkcall("clear")
 
 
 def rand_history_lines(rng, steps):
